@@ -301,8 +301,14 @@ def pred_true_set(ctx, clo):
     sym = ("sym", "pred_arg")
     P.TY.setdefault(sym, (32, False))
     px = P.PX(ctx.facts, models=MM.install(None), inline=lambda c, d: True, max_paths=2000)
+    b = ctx.facts.bodies[body]
+    pidx = 1 if is_fn else 2
+    pty = b["locals"][pidx]["s"] if b["arg_count"] >= pidx else ""
+    arg = sym
+    for _ in range(len(pty) - len(pty.lstrip("&"))):
+        arg = ("refconst", arg)       # `|&b| ..` / `|b: &u8| ..`: the argument is a reference to the element
     try:
-        outs = px.run(body, args=([sym] if is_fn else [clo, sym]))
+        outs = px.run(body, args=([arg] if is_fn else [clo, arg]))
     except Exception:
         return None
     trues = set()
